@@ -289,3 +289,12 @@ Proof. intros Ht Hs. unfold write, encode_value. rewrite Ht, Hs. reflexivity. Qe
 Theorem int_string_same a blk s z :
   (a_type a = TByte \/ a_type a = TWord) -> parse_dec s = Some z -> write a blk (VStr s) = write a blk (VInt z).
 Proof. intros Ht Hs. unfold write, encode_value. destruct Ht as [-> | ->]; rewrite Hs; reflexivity. Qed.
+
+(* reading never raises on a well-formed accessor *)
+Theorem get_value_total a blk : wf a blk -> exists v, get_value a blk = Some v.
+Proof.
+  intros W. destruct (field_decodes a blk W) as [ex [Hd _]]. unfold get_value, raw_get. rewrite Hd.
+  destruct (a_bitpos a) as [bp|] eqn:Eb.
+  - destruct (wf_bits _ _ W bp Eb) as [w [Hm _]]. rewrite Hm. cbn. eauto.
+  - cbn. eauto.
+Qed.
